@@ -5,6 +5,7 @@ let areas : (string list -> string option) list = [
   D_c13.run_case;
   D_strat.run_case;
   D_state.run_case;
+  D_tsops.run_case;
   D_c20.run_case;
   D_c11.run_case;
   D_c12.run_case;
